@@ -131,7 +131,7 @@ func TestReplayCircuitIDSharedKeys(t *testing.T) {
 			if inUseHash[i] {
 				got, err := tb.loader.GetCircuitIDMapping(subs[i].cid)
 				if err != nil || got != subs[i].mac {
-					h.fail(t, "hash-key-shared/fnv1a64-collision", "circuit-id %q resolves to MAC %012x, not its own %012x: HashCircuitID %016x for both", subs[i].cid, got, subs[i].mac, bngebpf.HashCircuitID(subs[i].cid))
+					h.fail(t, "hash-key-shared/"+hashShareKind(c.a, c.b), "circuit-id %q resolves to MAC %012x, not its own %012x: HashCircuitID %016x for both", subs[i].cid, got, subs[i].mac, bngebpf.HashCircuitID(subs[i].cid))
 					break
 				}
 			}
